@@ -1,6 +1,7 @@
 import I18n.Lemmas.PyFmtReasons
 import I18n.Lemmas.PyFmtTables
 import I18n.Lemmas.PyFmtWarn
+import I18n.Lemmas.PyFmtExact
 /-!
 # C12 — the Python %-format parser is consistent with CPython's `%` operator
 
@@ -164,6 +165,48 @@ theorem malformed_rejected {s : List Char} (hp : PlainPercent s) (h : ∀ a, for
   | error e => exact ⟨e, rfl⟩
   | ok r => exact absurd (accept_formats_canonical hp hr) (h _)
 
+/-- **The reported shape is the only one**: if CPython formats an accepted string with a tuple, then the parser reported no
+    named argument and exactly as many unnamed arguments (conversions and `*`s) as the tuple has items. -/
+theorem tuple_exact {s : List Char} {r : Result} {vs : List Val} (hp : PlainPercent s) (h : parse s = .ok r)
+    (hf : format s (.tuple vs) = .ok ()) : r.map = [] ∧ r.seq.length = vs.length := by
+  obtain ⟨st, hl, hseq, hmap, _⟩ := parse_loop h
+  obtain ⟨a, b⟩ := loop_tuple_exact true _ _ _ _ _ hl hp vs hf
+  refine ⟨?_, ?_⟩
+  · rw [hmap, a]; rfl
+  · rw [hseq, b]; simp [St.init]
+
+/-- … and if CPython formats an accepted string with a mapping, every key the parser reports is in the mapping
+    (every string, the domain is not needed). -/
+theorem mapping_keys_needed {s : List Char} {r : Result} {m : List (List Char × Val)} (h : parse s = .ok r)
+    (hf : format s (.dict m) = .ok ()) : ∀ k es, (k, es) ∈ r.map → (Spec.CPyPercent.lookup m k).isSome = true := by
+  obtain ⟨st, hl, _, hmap, _⟩ := parse_loop h
+  intro k es hk
+  rw [hmap] at hk
+  obtain ⟨_, e, he⟩ := groups_spec hk
+  rcases loop_dict_keys true _ _ _ _ _ hl m (.one .other false) hf k e he with r | r
+  · cases r
+  · exact r
+
+/-- **The domain, spelled out**: `PlainPercent s` says that every conversion specification the scanner reads in `s` whose
+    conversion character is `%` has no key, no flag, no width, no precision and no length modifier. -/
+theorem plainPercent_spec (s : List Char) :
+    PlainPercent s ↔ ∀ d ∈ directives s, d.conv = '%' →
+      d.key = none ∧ d.flags = [] ∧ d.width = .num 0 ∧ d.prec = none ∧ d.length = none := by
+  unfold PlainPercent directives
+  rw [plainPercent_iff]
+  constructor
+  · intro h d hd hc
+    have := h d hd
+    simp only [Directive.plain, hc, bne_self_eq_false, Bool.false_or, Bool.and_eq_true, Option.isNone_iff_eq_none,
+      List.isEmpty_iff, beq_iff_eq] at this
+    obtain ⟨⟨⟨⟨a, b⟩, c⟩, d'⟩, e⟩ := this
+    exact ⟨a, b, c, d', e⟩
+  · intro h d hd
+    by_cases hc : d.conv = '%'
+    · obtain ⟨a, b, c, d', e⟩ := h d hd hc
+      simp [Directive.plain, a, b, c, d', e]
+    · simp [Directive.plain, hc]
+
 /-- **The documented reason the parser gives is true of the string** (every string): among the conversion specifications
     the scanner reads (`directives s`) there is, for `WidthRangeError`, a literal width above `SSIZE_MAX` = 2^31-1; for
     `PrecisionRangeError`, a literal precision above 2^31-1, or above 2^31-4 on an integer conversion (CPython's own limit);
@@ -225,6 +268,8 @@ example : format "%!".toList (.tuple [.int 1]) = .error .unsupportedChar := by r
 /-- outside the domain: the parser types `%5%` as consuming nothing, CPython 3.12 rejects it -/
 example : (parse "%5%".toList).map (·.seq) = .ok [] := by rfl
 example : format "%5%".toList (.tuple []) = .error .notEnoughArgs := by rfl
+example : format "%*.*lu%%".toList (.tuple [.int 7, .int 5]) = .error .notEnoughArgs := by rfl
+example : format "%d".toList (.tuple [.int 7, .int 5]) = .error .notAllConverted := by rfl
 example : (parse "%-05.3d".toList).map (·.warnings) = .ok [.RedundantFlag, .RedundantFlag] := by rfl
 example : (parseW false "%-05.3d".toList).map (·.warnings) = .ok [] := by rfl
 example : (directives "a%(k)-5d%%%*s".toList).map (fun d => (d.key.map String.ofList, d.flags, d.width, d.conv)) =
